@@ -940,7 +940,7 @@ impl Engine for EnvSim {
         Meta {
             engine: "cmdsim/envsim",
             level: "exploration",
-            rule: "a scenario is a command tree (<= 3 levels, <= 6 source-carrying arguments per level: env, default_value(s), default_value_if, default_missing_value, actions Set/Append/SetTrue/SetFalse/Count, optional values, delimiters, globals, one relation per level) plus a timeline of <= 10 events: SetEnv/UnsetEnv on the real process environment of the single-threaded worker, Define (clap snapshots the variable here), Parse of an argv printed from an intent (re-parse on the same Command when no Define intervenes). Fault kinds on the environment: unset, empty value, non-UTF-8 bytes, value outside the parser's language, variable set for a flag, variable changed or removed between Define and Parse. Non-trivial = a timeline with >= 1 environment event that fired and >= 1 parse compared with the model; distinct = distinct scenario hash",
+            rule: "a scenario is a command tree (<= 3 levels, <= 6 source-carrying arguments per level: env, default_value(s), default_value_if, default_missing_value, actions Set/Append/SetTrue/SetFalse/Count, optional values, delimiters, globals, one relation per level) plus a timeline of <= 10 events: SetEnv/UnsetEnv on the real process environment of the single-threaded worker, Define (clap snapshots the variable here), Parse of an argv printed from an intent (re-parse on the same Command when no Define intervenes). Fault kinds on the environment: unset, empty value, non-UTF-8 bytes, value outside the parser's language, variable set for a flag, variable changed or removed between Define and Parse. Non-trivial = a timeline with >= 1 environment event that fired and >= 1 parse compared with the model; distinct = distinct scenario hash. Added during the build phase: overrides, group conflicts, up to two conditional defaults per argument (incl. ones the parser rejects and the lossy look-alike needle), optional values with and without `=`, counters with a missing-value default, and recovering parses (the line plus one unparsable token under ignore_errors)",
             real_components: &["clap_builder::Arg::env (std::env::var_os at definition)", "Parser::add_env / add_defaults / react", "Validator (explicit-ness)", "ArgMatches::value_source / get_raw_occurrences / args_present", "the real process environment (setenv/unsetenv)"],
             stub_components: &["reference model of origin/precedence and of the restricted relation vocabulary (about 150 lines, no clap code)"],
             workload_only_clauses: &["which mix of default/env/default-if/default-missing sits on one argument is configuration; the simulator contributes the environment timeline"],
